@@ -532,6 +532,11 @@ def oracle_render(case, io_, spec):
         why = md_find_all(strings, text)
         if why:
             fails.append('md_escaped: %s: %r' % (why, text))
+        # a link keeps its target: the URL is what the link points to, the text is what is shown
+        for u, ext in _links(case['tree'], []):
+            want = ('<a href="%s" target="_blank">' % u) if ext else ('](%s)' % u)
+            if want not in text:
+                fails.append('md_link: the link to %r (external=%r) with non-empty text does not appear as %r in %r' % (u, ext, want, text))
     elif b == 'latex':
         if spec['strings_balanced'] and spec['urls_balanced'] and not brace_balanced(text):
             fails.append('latex_balanced: all text parts and URLs are brace-balanced, the output %r is not' % text)
@@ -554,6 +559,24 @@ def oracle_render(case, io_, spec):
         if text != plain:
             fails.append('plain: output %r, the text with symbols replaced is %r' % (text, plain))
     return fails
+
+
+def _nonempty(t):
+    if isinstance(t, str):
+        return t != ''
+    if isinstance(t, dict) and 'p' in t:
+        return any(_nonempty(p) for p in t['p'])
+    return True      # a symbol
+
+
+def _links(t, out):
+    """(url, external) of every link with non-empty text"""
+    if isinstance(t, dict) and 'p' in t:
+        if t['k'] == 'href' and _nonempty(t):
+            out.append((t['u'], bool(t.get('e'))))
+        for p in t['p']:
+            _links(p, out)
+    return out
 
 
 def _urls(t, out):
